@@ -32,6 +32,21 @@ pub fn sdata(t: u16, rdata: &[u8]) -> StoredRecordData {
     d.flatten_into()
 }
 
+/// Like `sdata`, for data that may not be acceptable to the library.
+pub fn try_sdata(t: u16, rdata: &[u8]) -> Option<StoredRecordData> {
+    let mut buf = vec![0u8; 12];
+    buf.extend_from_slice(rdata);
+    let b = Bytes::from(buf);
+    let mut p = Parser::from_ref(&b);
+    p.advance(12).ok()?;
+    let mut sub = p.parse_parser(rdata.len()).ok()?;
+    let d = ZoneRecordData::<Bytes, ParsedName<Bytes>>::parse_rdata(Rtype::from_int(t), &mut sub).ok()??;
+    if sub.remaining() != 0 {
+        return None;
+    }
+    Some(d.flatten_into())
+}
+
 pub fn srecord(name: &[u8], t: u16, ttl: u32, rdata: &[u8]) -> StoredRecord {
     Record::new(sname(name), Class::IN, Ttl::from_secs(ttl), sdata(t, rdata))
 }
